@@ -334,6 +334,8 @@ where
 
     #[inline(always)]
     fn set_unrounded_layout(&mut self, node_id: NodeId, layout: &Layout) {
+        #[cfg(taffy_verif)]
+        crate::verif_trace::set(node_id, layout);
         self.taffy.nodes[node_id.into()].unrounded_layout = *layout;
     }
 
@@ -347,6 +349,8 @@ where
         // If RunMode is PerformHiddenLayout then this indicates that an ancestor node is `Display::None`
         // and thus that we should lay out this node using hidden layout regardless of it's own display style.
         if inputs.run_mode == RunMode::PerformHiddenLayout {
+            #[cfg(taffy_verif)]
+            crate::verif_trace::hidden(node, inputs);
             debug_log!("HIDDEN");
             #[cfg(taffy_verif)]
             {
